@@ -14,6 +14,7 @@ import DispensoVerif.Model.OnceFn
 import DispensoVerif.Model.ConVec
 import DispensoVerif.Model.Arena
 import DispensoVerif.Model.ParFor
+import DispensoVerif.Model.ForEach
 
 /-! Handlers of the dvdriver line protocol. Core Lean only. -/
 namespace Driver
@@ -293,6 +294,15 @@ def parforH (args : List String) : String :=
       (cs.foldl (fun acc x => acc ++ " " ++ toString x.1 ++ " " ++ toString x.2) "")
   | _ => "bad-op"
 
+/-- C15 for_each plan: `foreach n maxThreads wait pool recursive` → `T k off1 size1 …` (non-empty chunks) -/
+def foreachH (args : List String) : String :=
+  match ints args with
+  | some [n, mt, wait, pool, recur] =>
+    let p := ForEach.plan n mt.toNat (decide (wait ≠ 0)) pool (decide (recur ≠ 0))
+    let cs := p.chunks.filter fun c => decide (c.2 > 0)
+    s!"T {cs.length}" ++ (cs.foldl (fun acc x => acc ++ " " ++ toString x.1 ++ " " ++ toString x.2) "")
+  | _ => "bad-op"
+
 def parforPlanH (args : List String) : String :=
   match ints args with
   | some [bits, sg, start, stop, chunk, mt, wait, minItems, g, pool, recur] =>
@@ -389,6 +399,7 @@ def dispatch (st : St) : List String → St × String
   | "convec" :: rest => convecH st rest
   | "arenaseq" :: rest => arenaH st rest
   | "parfor" :: rest => (st, parforH rest)
+  | "foreach" :: rest => (st, foreachH rest)
   | "parforplan" :: rest => (st, parforPlanH rest)
   | "trace" :: "begin" :: rest =>
     let (s, r) := traceBegin rest
